@@ -501,3 +501,109 @@ def has_jump(stmts):
         if isinstance(s, ast.With) and has_jump(s.body):
             return True
     return False
+
+
+# ================================================================================================
+# part 3: values, frames
+# ================================================================================================
+NOC = object()
+
+
+class V:
+    """What an expression denotes at translation time."""
+    __slots__ = ("var", "funcs", "unknown_fn", "const", "cls", "mod", "tab")
+
+    def __init__(self, var=None, funcs=(), const=NOC, cls=None, mod=None, tab=(), unknown_fn=False):
+        self.var, self.funcs, self.const, self.cls, self.mod = var, frozenset(funcs), const, cls, mod
+        self.tab = tuple(tab)
+        self.unknown_fn = unknown_fn
+
+
+class FuncVal:
+    def __init__(self, node, module, parent=None, cls=None, kind="function", self_cls=None, exact=False, clo=None):
+        self.node, self.module, self.parent, self.cls, self.kind = node, module, parent, cls, kind
+        self.self_cls, self.exact, self.clo = self_cls or cls, exact, clo
+
+    def key(self):
+        return (id(self.node), id(self.parent), id(self.self_cls), self.exact)
+
+    def __hash__(self):
+        return hash(self.key())
+
+    def __eq__(self, o):
+        return isinstance(o, FuncVal) and self.key() == o.key()
+
+
+def ndarray_locals(fn, module):
+    """Locals whose every binding is `name = numpy.<allocating function>(...)`: certainly arrays."""
+    good, bad = set(), set()
+    if not isinstance(fn, ast.FunctionDef):
+        return good
+    a = fn.args
+    for p in a.posonlyargs + a.args + a.kwonlyargs + ([a.vararg] if a.vararg else []) + ([a.kwarg] if a.kwarg else []):
+        bad.add(p.arg)
+    for n in ast.walk(fn):
+        if isinstance(n, ast.Assign) and len(n.targets) == 1 and isinstance(n.targets[0], ast.Name):
+            v = n.value
+            ok = (isinstance(v, ast.Call) and isinstance(v.func, ast.Attribute) and isinstance(v.func.value, ast.Name)
+                  and module.imports.get(v.func.value.id) == "numpy" and v.func.attr in ("zeros", "ones", "empty", "full", "arange")
+                  and not any(k.arg == "dtype" and "object" in ast.unparse(k.value) for k in v.keywords))
+            (good if ok else bad).add(n.targets[0].id)
+        elif isinstance(n, ast.Name) and isinstance(n.ctx, ast.Store):
+            pass
+    # any other binding form of the name disqualifies it
+    for n in ast.walk(fn):
+        if isinstance(n, ast.Name) and isinstance(n.ctx, (ast.Store, ast.Del)):
+            n._seen_store = True
+    for n in ast.walk(fn):
+        if isinstance(n, ast.Assign) and len(n.targets) == 1 and isinstance(n.targets[0], ast.Name):
+            n.targets[0]._simple = True
+    for n in ast.walk(fn):
+        if isinstance(n, ast.Name) and isinstance(n.ctx, (ast.Store, ast.Del)) and not getattr(n, "_simple", False):
+            bad.add(n.id)
+        if isinstance(n, ast.AugAssign) and isinstance(n.target, ast.Name):
+            bad.discard(n.target.id) if False else None
+    return good - bad
+
+
+class Frame:
+    def __init__(self, tr, fn, module, parent=None, cls=None, self_cls=None, exact=False, kind="function"):
+        self.tr, self.fn, self.module, self.parent, self.cls = tr, fn, module, parent, cls
+        self.self_cls, self.exact, self.kind = self_cls or cls, exact, kind
+        self.locals = assigned_names(fn) if fn is not None else set()
+        self.vars, self.consts, self.funcs, self.fn_unknown, self.mods = {}, {}, {}, set(), {}
+        self.ret = tr.newvar()
+        self.ret_funcs, self.ret_unknown, self.ret_objs = set(), False, False
+        self.gen = None
+        self.recursive = False
+        self.params = []          # (name, var)
+        self.self_name = None
+        self.nd = ndarray_locals(fn, module) if fn is not None else set()
+        self.rebound = set()
+        if isinstance(fn, ast.FunctionDef):
+            for n in ast.walk(ast.Module(body=fn.body, type_ignores=[])):
+                if isinstance(n, ast.Name) and isinstance(n.ctx, (ast.Store, ast.Del)):
+                    self.rebound.add(n.id)
+                elif isinstance(n, (ast.FunctionDef,)):
+                    self.rebound.add(n.name)
+
+    def owner(self, name):
+        f = self
+        while f is not None:
+            if name in f.locals:
+                return f
+            f = f.parent
+        return None
+
+    def var(self, name):
+        if name not in self.vars:
+            self.vars[name] = self.tr.newvar()
+        return self.vars[name]
+
+    def method_frame(self):
+        f = self
+        while f is not None:
+            if f.kind == "function" and f.cls is not None and f.self_name is not None:
+                return f
+            f = f.parent
+        return None
